@@ -147,14 +147,26 @@ def _legacy_case(rng):
     L = dl[n]
     form = rng.choice(['i', 'ab', 'abs', 'abs', 'abs'])
     if form == 'i':
-        a = rng.randint(0, max(L - 1, 0))
-        return dict(kind='legacy', spec=spec, text='%s,%d' % (n, a), sels=[[n, ['s', a, a + 1, 1]]])
+        # one index, also counted from the end (-1 is the last element)
+        a = rng.randint(-L, max(L - 1, 0)) if L else 0
+        return dict(kind='legacy', spec=spec, text='%s,%d' % (n, a), sels=[[n, ['s', a, (a + 1) or None, 1]]])
     a = rng.choice([None, rng.randint(-L - 1, L + 1)])
     b = rng.choice([None, rng.randint(-L - 1, L + 1)])
     if form == 'ab':
         return dict(kind='legacy', spec=spec, text='%s,%s,%s' % (n, a, b), sels=[[n, ['s', a, b, 1]]])
     st = rng.choice([1, 2, -1, -2, 3])
     return dict(kind='legacy', spec=spec, text='%s,%s,%s,%d' % (n, a, b, st), sels=[[n, ['s', a, b, st]]])
+
+
+def _twostep_case(rng):
+    """a pointwise selection of a file that already has the dimension of an earlier pointwise selection: refused, or a
+    well-formed file that holds the requested cells (oracle only)"""
+    nt, nz, ny, nx = rng.randint(2, 3), rng.randint(2, 3), rng.randint(2, 4), rng.randint(2, 4)
+    n1, n2 = rng.randint(1, 3), rng.randint(1, 3)
+    return dict(kind='twostep', sels=[], shape=[nt, nz, ny, nx],
+                first=[[rng.randrange(ny) for _ in range(n1)], [rng.randrange(nx) for _ in range(n1)]],
+                second=[[rng.randrange(nt) for _ in range(n2)], [rng.randrange(nz) for _ in range(n2)]],
+                named=rng.random() < 0.4)
 
 
 def _ioapi_case(rng):
@@ -188,6 +200,7 @@ def gen(rng, tier):
     out += [_mixed_case(rng) for _ in range(n // 8)]
     out += [_npint_case(rng) for _ in range(n // 10)]
     out += [_legacy_case(rng) for _ in range(n // 8)]
+    out += [_twostep_case(rng) for _ in range(n // 40)]
     out += [_ioapi_case(rng) for _ in range(n // 8)]
     return out
 
@@ -267,6 +280,23 @@ def _impl_ioapi(case):
 def impl(case):
     if case.get('kind') == 'ioapi':
         return _impl_ioapi(case)
+    if case.get('kind') == 'twostep':
+        import PseudoNetCDF as pnc
+        f = pnc.PseudoNetCDFFile()
+        for k, n in zip('tzyx', case['shape']):
+            f.createDimension(k, n)
+        v = f.createVariable('A', 'd', tuple('tzyx'))
+        v[:] = np.arange(int(np.prod(case['shape']))).reshape(case['shape'])
+        try:
+            with lib.pnc_warnings():
+                g = f.sliceDimensions(y=case['first'][0], x=case['first'][1])
+                kw = dict(newdims=('P2',)) if case['named'] else {}
+                h = g.sliceDimensions(t=case['second'][0], z=case['second'][1], **kw)
+            a = h.variables['A']
+            return dict(dims=list(a.dimensions), shape=list(a.shape), lens=[len(h.dimensions[d]) for d in a.dimensions],
+                        vals=np.asarray(a[:], dtype='d').ravel().tolist())
+        except Exception as e:
+            return dict(err=type(e).__name__, msg=str(e)[:100])
     if case.get('kind') == 'legacy':
         from PseudoNetCDF.core._functions import slice_dim
         f = pfile.build(case['spec'])
@@ -312,7 +342,7 @@ def _tok(sel):
 
 
 def to_line(case, res):
-    if case.get('kind') == 'ioapi':
+    if case.get('kind') in ('ioapi', 'twostep'):
         return 'c02 slice x:1:f - - - POINTS'
     d, v, a = pfile.encode(case['spec'])
     sels = ';'.join('%s=%s' % (k, _tok(s)) for k, s in case['sels']) or '-'
@@ -320,7 +350,7 @@ def to_line(case, res):
 
 
 def agree(case, out, res):
-    if case.get('kind') == 'ioapi':
+    if case.get('kind') in ('ioapi', 'twostep'):
         return None                 # the IOAPI metadata model is C10's; here the data are judged by the oracle
     if case.get('kind') == 'legacy' and 'obs' in res and out.startswith('ok '):
         # the string front end adds a history attribute and copies through another path: compare dimensions and variables
@@ -342,6 +372,19 @@ def agree(case, out, res):
 
 def oracle(case, res):
     """independent statement of the property with numpy.take per axis / explicit zipping"""
+    if case.get('kind') == 'twostep':
+        if 'err' in res:
+            if case['named']:
+                return 'a second pointwise selection with a new dimension name raised %s %s' % (res['err'], res.get('msg'))
+            return None if res['err'] == 'ValueError' else 'a second pointwise selection raised %s %s' % (res['err'], res.get('msg'))
+        src = np.arange(int(np.prod(case['shape']))).reshape(case['shape'])
+        one = src[:, :, case['first'][0], case['first'][1]]                # (t, z, POINTS)
+        want = one[case['second'][0], case['second'][1], :]                # (second points, POINTS)
+        if len(set(res['dims'])) != len(res['dims']) or res['shape'] != res['lens'] or res['shape'] != list(want.shape) or \
+                res['vals'] != want.astype('d').ravel().tolist():
+            return 'two pointwise selections in a row: dimensions %s shape %s (dimension lengths %s) values %s, the cells asked for are %s' % (
+                res['dims'], res['shape'], res['lens'], res['vals'][:6], want.ravel().tolist()[:6])
+        return None
     if case.get('kind') == 'ioapi':
         if res.get('skip'):
             return None
@@ -442,6 +485,8 @@ def classify(case, failure, model_out):
 def nontrivial(case, res):
     if case.get('kind') == 'ioapi':
         return 'bad' in res
+    if case.get('kind') == 'twostep':
+        return True
     sel = {k for k, s in case['sels']}
     has = [bool(set(v['dims']) & sel) for v in case['spec']['vars']]
     lists = [k for k, s in case['sels'] if s[0] == 'l']
